@@ -367,7 +367,7 @@ func (w *world) op(t string) string {
 		if h < 0 || h >= len(w.handles) || w.expect[h] == 0 {
 			return "9"
 		}
-		wait := 4 * time.Millisecond
+		wait := 2 * time.Millisecond
 		if w.expect[h] == 2 {
 			wait = 3 * time.Second
 		}
@@ -579,9 +579,9 @@ func run(c *Ctx) error {
 		}
 		return nil
 	}
-	n := 700
+	n := 500
 	if c.Tier != "quick" {
-		n = 12000
+		n = 8000
 	}
 	for k := 0; k < n; k++ {
 		toks, tag := gen(c.Rng, c.Tier != "quick")
